@@ -46,6 +46,8 @@ MANIFEST = dict(
               "structural induction through C07/C09/C10) + differential correspondence check with exhaustive small scopes",
 )
 PROP_FILES = ["HtmlVerif/Props/C11.lean", "HtmlVerif/Props/C11TextDoc.lean", "HtmlVerif/Props/ConstsDoc.lean", "HtmlVerif/Props/SrcC12.lean"]
+PROP_FILES.append("HtmlVerif/Props/SrcRenderC11.lean")   # the renderer tie restated on the embedding of tagify / get_dependencies
+PROP_FILES.append("HtmlVerif/Props/SrcC11.lean")   # source tie: _gen_html_tag_tree, _hoist_head_content, render, __init__, append, Tag.render/insert/extend/append, TagAttrDict.__init__
 
 LPS = [None, "", "lib", "a/b", "a/b/"]
 KWS = [
@@ -515,6 +517,8 @@ def run(tier: str) -> int:
     phase["python_oracle"] = round(time.time() - t1, 1)
     t1 = time.time()
     ck.add_src(['HTMLDependency_as_html_tags'])
+    ck.add_src(['TagAttrDict_initC11', 'Tag_insertC11', 'Tag_extendC11', 'Tag_appendC11', 'HTMLDocument_initC11', 'HTMLDocument_appendC11'], quick=150, thorough=800)
+    __import__("srctie_c11").add_src_c11(ck, ['HTMLDocument_hoist_head_contentC11', 'HTMLDocument_gen_html_tag_treeC11', 'HTMLDocument_renderC11', 'Tag_renderC11'], thorough=1500)
     ck.correspond(holds=True)
     phase["model_and_statement"] = round(time.time() - t1, 1)
     ck.extra_cov["phase_s"] = phase
